@@ -355,13 +355,16 @@ def run(tier, seed, replay):
         s = gen_samples(rng, len(t)).real
         spl = si.make_interp_spline(t, s, k=3)
         pp = si.PPoly.from_spline(spl)
-        for name, obj in (("BSpline", spl), ("PPoly", pp)):
+        for name, obj in (("BSpline", spl), ("PPoly", pp), ("CubicSpline", si.CubicSpline(t, s)), ("PchipInterpolator", si.PchipInterpolator(t, s)),
+                          ("Akima1DInterpolator", si.Akima1DInterpolator(t, s)), ("BSpline-order2", si.make_interp_spline(t, s, k=2)),
+                          ("CubicSpline-complex", si.CubicSpline(t, s + 1j * s[::-1]))):
             c = qutip.coefficient(obj)
-            for q in query_times(rng, t):
-                if t[0] <= q <= t[-1]:
-                    want = complex(obj(q))
-                    if abs(complex(c(q)) - want) > 1e-8 * max(1.0, abs(want), np.abs(s).max()):
-                        v(f"from-{name}", f"coefficient built from a {name} differs from it at t={q!r}", {"tlist": t.tolist(), "samples": s.tolist(), "t": q})
+            for q in list(query_times(rng, t)) + [t[-1], t[0], t[-1] + (t[-1] - t[0]), t[0] - (t[-1] - t[0]), np.nextafter(t[-1], np.inf)]:
+                # inside the range the object itself; outside, the coefficient is constant: the value at the nearest end
+                want = complex(obj(min(max(q, t[0]), t[-1])))
+                if abs(complex(c(q)) - want) > 1e-8 * max(1.0, abs(want), np.abs(s).max()):
+                    v(f"from-{name.split('-')[0]}", f"coefficient built from a {name} is {complex(c(q))} at t={q!r} (range {t[0]!r} .. {t[-1]!r}), the object gives {want}", {"tlist": t.tolist(), "samples": s.tolist(), "t": float(q)})
+                    break
             rep.count("from-" + name)
     # ---- function coefficients
     fcases = func_cases(rng, 150 if tier == "quick" else 1500)
@@ -542,6 +545,31 @@ def run(tier, seed, replay):
                 v("string-replace", f"string coefficient {expr!r} with replaced arguments gives {g2}, expected {w2}", {"expr": expr, "t": tt})
             if ga != g:
                 v("string-replace-changes-original", f"string coefficient {expr!r} changed after replace_arguments", {"expr": expr})
+        # the same expression built several times in one process with different argument dictionaries - a larger one shared
+        # with other coefficients (holding names the expression does not use, some of them substrings of it) first, its own
+        # arguments next, then other values: every object evaluates its own expression with its own arguments
+        try:
+            with warnings.catch_warnings():
+                warnings.simplefilter("ignore")
+                spare = {nm_: 7 + k_ for k_, nm_ in enumerate(["a", "n", "s", "co", "si", "ex", "x", "w2", "q", "rea", "an"]) if nm_ not in argvals}
+                shared = dict(argvals, **spare)
+                expr_p = "(" + expr + ")"           # a text this process has not built a coefficient from yet
+                c_shared = qutip.coefficient(expr_p, args=shared)
+                c_own = qutip.coefficient(expr_p, args=dict(argvals))
+                other_vals = {k: (x + 2) for k, x in argvals.items()}
+                c_other = qutip.coefficient(expr_p, args=dict(other_vals))
+                c_shared_again = qutip.coefficient(expr_p, args=dict(shared))
+                for tt, w_ in zip(tts, wants):
+                    rep.evaluations += 1
+                    w_o = complex(eval(expr, env, dict(other_vals, t=tt)))
+                    for nm_, co_, ww_ in (("a larger shared dictionary", c_shared, w_), ("its own arguments after a larger dictionary", c_own, w_),
+                                          ("other values", c_other, w_o), ("the larger dictionary again", c_shared_again, w_)):
+                        g_ = complex(co_(tt))
+                        if np.isfinite(ww_) and abs(g_ - ww_) > 1e-12 * max(1, abs(ww_)):
+                            v("string-rebuilt", f"string coefficient {expr!r} built with {nm_} gives {g_} at t={tt}, the expression evaluates to {ww_}", {"expr": expr, "args": {k: str(x) for k, x in argvals.items()}})
+                            break
+        except Exception as e:
+            v("string-rebuilt-raises", f"string coefficient {expr!r} built again with other argument dictionaries: {type(e).__name__}: {e}"[:200], {"expr": expr, "args": {k: str(x) for k, x in argvals.items()}})
         # call-time arguments: keywords, a dictionary, and the same dictionary object again after the caller changed it in place
         if argvals:
             with warnings.catch_warnings():
